@@ -53,6 +53,15 @@ Example C07_cascade_example :
   (S.apply 6 (S.Deregister "n2" "" "") s').2 = S.CNil.
 Proof. exact orphan_example. Qed.
 
+(* non-vacuity of C07_cascade_service: a service deregistration that succeeds in a reachable store *)
+Example C07_cascade_service_example :
+  let s := (S.run orphan_log S.st0).1 in
+  (S.apply 5 (S.Deregister "n1" "s1" "") s).2 = S.CNil /\
+  let s' := (S.apply 5 (S.Deregister "n1" "s1" "") s).1 in
+  S.services s' !! ("n1", "s1") = None /\ S.checks s' !! ("n1", "c1") = None /\
+  is_Some (S.checks s' !! ("n1", "c2")) /\ is_Some (S.nodes s' !! "n1").
+Proof. exact service_dereg_example. Qed.
+
 (* ---- the same three statements over the catalog extension model: all service kinds, sidecar
    proxies, gateways, config entries, catalog transactions, and coordinates (no sessions) ---- *)
 Theorem C07_no_orphans_catalog : forall s, CReach s ->
@@ -79,6 +88,12 @@ Proof. intros idx nd sid cid0 s Hs Hr. apply Orphans.deregister_service_cascade;
 Theorem C07_vip_unique : forall s, CReach s ->
   forall n1 n2 ip m1 m2, vips s !! n1 = Some (ip, m1) -> vips s !! n2 = Some (ip, m2) -> n1 = n2.
 Proof. exact vip_unique. Qed.
+
+(* the allocator behind it: an assigned address is positive, never beyond the counter and never in the
+   free list (so neither the counter nor the free list can hand it out a second time) *)
+Theorem C07_vip_allocator : forall s, CReach s ->
+  forall n ip m, vips s !! n = Some (ip, m) -> 0 < ip <= counter s /\ ip ∉ free s.
+Proof. exact vip_allocator. Qed.
 
 (* in every reachable state, an instance that advertises a virtual IP is in the connect index and
    advertises the current assignment of the service it is indexed under (its own name if
@@ -209,17 +224,22 @@ Proof. exact topology_repaired_example. Qed.
    (2) an instance re-registered as a non-proxy keeps the pairs it declared as a proxy;
    (3) an ingress gateway lists a service on one listener and "*" on another: when the service's last
        connect instance goes, the wildcard-derived association is removed and takes the (service,
-       gateway) pair with it although the listed association remains. *)
+       gateway) pair with it although the listed association remains.
+   (4) a connect-native service registered with upstreams leaves its pairs (upstream, "") behind when
+       it is deregistered: no instance is left at all, the pair and its reference are. *)
 Theorem C07_derived_topology_refuted :
   (exists s, CReach s /\ topo s !! ("db", "web") = None /\ recompute_topo s !! ("db", "web") = Some {[ ("n1", "s1") ]}) /\
   (exists s, CReach s /\ topo s !! ("db", "web") = Some {[ ("n1", "s1") ]} /\ recompute_topo s !! ("db", "web") = None) /\
   (exists s, CReach s /\ topo s !! ("web", "igw") = None /\ is_Some (gws s !! ("igw", "web", 8080)) /\
-             recompute_topo s !! ("web", "igw") = Some ∅).
+             recompute_topo s !! ("web", "igw") = Some ∅) /\
+  (exists s, CReach s /\ services s = ∅ /\ topo s !! ("db", "") = Some {[ ("n1", "s1") ]} /\
+             recompute_topo s !! ("db", "") = None).
 Proof.
-  split; [|split].
+  split; [|split; [|split]].
   - exists (run topo_drop_log st0).1. split; [apply CReach_run|exact topology_witness].
   - exists (run topo_redef_log st0).1. split; [apply CReach_run|exact topology_witness2].
   - exists (run topo_gw_log st0).1. split; [apply CReach_run|exact topology_witness3].
+  - exists (run topo_native_log st0).1. split; [apply CReach_run|exact topology_witness4].
 Qed.
 
 (* ---- gateway-services ---- *)
@@ -280,10 +300,12 @@ Print Assumptions C07_vip_example.
 Print Assumptions C07_cascade_node.
 Print Assumptions C07_cascade_service.
 Print Assumptions C07_cascade_example.
+Print Assumptions C07_cascade_service_example.
 Print Assumptions C07_no_orphans_catalog.
 Print Assumptions C07_cascade_node_catalog.
 Print Assumptions C07_cascade_service_catalog.
 Print Assumptions C07_vip_unique.
+Print Assumptions C07_vip_allocator.
 Print Assumptions C07_vip_advertised.
 Print Assumptions C07_vip_advertised_example.
 Print Assumptions C07_derived_usage.
